@@ -210,6 +210,17 @@ def run(ck, facts, tier):
     pywrap.run_curve_wrappers(ck, facts)
     from rules import deps
     deps.include_ad(ck, facts, tier)
+    # "the i-th node in date order" presupposes that the stored nodes are in date order on every construction path: the sort is a must-pass-through (C11 R11.4)
+    from rules import c11
+    if not getattr(ck, "_c11_c12_nested", False):          # C11 includes R12.2 of this module in turn
+        ck._c11_c12_nested = True
+        try:
+            nd_, tb_ = list(ck.not_decided), list(ck.trusted)
+            with ck.restrict({"R11.4"}):
+                c11.run(ck, facts, tier)
+            ck.not_decided[:], ck.trusted[:] = nd_, tb_
+        finally:
+            ck._c11_c12_nested = False
     ck.not_decided += ["gradients/Hessians of looked-up values as numbers (they follow from R11.1 being generic over the number type + C01/C02)",
                        "which interval a date falls in (C11's undecided index_left)"]
     ck.trusted += ["lib/cel.py Seq model of iterator pipelines (into_iter/enumerate/map/collect)"]
